@@ -49,6 +49,20 @@ def run_catalogue(repo: Repo, kind: str, no_copy: Tuple = (), cbn: bool = False,
     return rows
 
 
+def run_entries(repo: Repo, kind: str, entries, cbn: bool = False) -> List[Row]:
+    """The same comparison for an explicit list of entries (not part of the shared catalogue, not cached)."""
+    d = Dispatcher(repo, kind)
+    rows = []
+    for e in entries:
+        outs = d.dispatch(e, could_be_none=cbn)
+        cs = sorted({canonise(o) for o in outs})
+        ref = oracle.ref_pack(e.type, "X", (), cbn=cbn) if kind == "PACK" else oracle.ref_unpack(e.type, "X", cbn=cbn)
+        ok = len(cs) == 1 and (cs[0] in ref or any(oracle.canon_text(cs[0]) == oracle.canon_text(r) for r in ref))
+        rows.append(Row(e, kind, cbn, cs, ref, sorted({o.func.split("::")[-1] if o.func else "-" for o in outs}), ok,
+                        [o.raised for o in outs if o.raised], outs))
+    return rows
+
+
 # --------------------------------------------------------------------------- helper bodies (TypedDict / NamedTuple with defaults)
 def helper_body(o: Outcome) -> Optional[str]:
     """Canonical text of the helper function compiled on this outcome's path (statements only)."""
